@@ -137,6 +137,12 @@ def eng_eq(eng, a, b):
         return unwrap(a, ("optstr",)) == unwrap(b, ("optstr",))
     if isinstance(a, VOpaqueZ) and isinstance(b, VOpaqueZ):
         return a.z == b.z
+    if isinstance(a, VIter) and isinstance(b, VIter) and a.kind == b.kind == "keys" and isinstance(a.src, VMap) and isinstance(b.src, VMap):
+        # d1.keys() == d2.keys(): set equality of the domains
+        if a.src.kt != b.src.kt:
+            return z3.BoolVal(False)
+        k = z3.Const("k!ke", sort_of(a.src.kt))
+        return z3.ForAll([k], z3.Select(a.src.dom, k) == z3.Select(b.src.dom, k))
     if isinstance(a, (VMap, VLoc, VEmptyDict)) and isinstance(b, (VMap, VLoc, VEmptyDict)):
         raise Unsupported("dict equality needs state")
     if type(a) is not type(b):
